@@ -815,6 +815,7 @@ public:
     auto* FPT = FD->getType()->getAs<FunctionProtoType>();
     if (FPT && nothrowSafe(FPT)) kvi(o, "nothrow", 1);
     kv(o, "ret", tyStr(FD->getReturnType()));
+    kv(o, "cret", tyStr(FD->getReturnType().getCanonicalType()));
     o += ",\"params\":[";
     bool first = true;
     for (const ParmVarDecl* P : FD->parameters())
